@@ -26,4 +26,113 @@ prop("C01", "bbs",
      "non-trivial: every case signs and verifies).",
      BBS_BASE, (800, 4000), (600, 3600),
      exhaustive_subspaces=["L in 0..=3 x 6 header classes x 6 message classes x 2 suites"])
+
+prop("C02", "bbs",
+     "one case = (suite, L, header class, edit kind, edited position). Honest (sk, header, msgs, sig) from the real "
+     "sign; every edit is applied alone and presented to from_bytes + verify; oracle: never Ok (decode Err counts). "
+     "Edits: per-message bit flip / empty / extend / delete / insert / insert-empty / duplicate, swaps of distinct "
+     "messages (all pairs for L<=8), rotation, every proper prefix (L<=16), 1-3 appended messages, appended empty message, "
+     "header bit flip / truncate / remove / empty / add / extend / prefix, other key, -pk, identity, G2 generator, 2*pk, "
+     "signature bit flips (all 640 for selected honest tuples, else 24 sampled), other suite's verifier on the same key, "
+     "blind_sign<->verify and sign<->verify_blind_sign. Trivial edits (edited vector equals the signed one, e.g. swapping "
+     "equal messages) are detected by value, skipped and not counted.",
+     BBS_BASE + ["an accepted edit would be a defect or a hash collision (p < 2^-250): no false alarms"],
+     (5000, 60000), (900, 7200),
+     exhaustive_subspaces=["all 640 single-bit flips of the signature for selected honest tuples",
+                           "all message positions for L<=40, all swaps for L<=8, all proper prefixes for L<=16"])
+
+prop("C03", "bbs",
+     "one case = (suite, L, disclosed set, header class, ph class). For each honest signature every listed disclosure set "
+     "runs proof_gen (production randomness; the hook must see exactly 5+U draws), length check 272+32U, proof_verify, "
+     "to_bytes/from_bytes equality and proof_verify of the decoded proof; None/empty argument variants alternate. "
+     "All 2^L subsets for small L, structured + random subsets for large L. Every case is non-trivial.",
+     BBS_BASE, (3000, 30000), (900, 7200),
+     exhaustive_subspaces=["all 2^L disclosure sets for L = 0..=8 (quick) / 0..=11 (thorough), both suites"])
+
+prop("C04", "bbs",
+     "workload A: one case = (suite, L, disclosed set, edit kind, position) on an honest proof: disclosed message altered/"
+     "replaced, each disclosed index moved to every other position incl. out of range / 2^32 / usize::MAX, messages swapped, "
+     "pair dropped, true hidden pair added, pair appended, count mismatches, header/ph edits and exchange, 4 foreign keys, "
+     "proof bit flips (all bits for selected proofs, else 48 sampled), scalar-granular truncation / m^ removal / extension "
+     "(zero, random, copy; before and after the challenge), byte-granular truncation. workload B: one case = (suite, "
+     "forgery family, U, R, interface, transport): proofs assembled by the reference implementation from PUBLIC data only "
+     "for a key the harness never signs with and claimed messages of its choice: Abar=Bbar=O with D=Bv or k*Bv and r3^=-c/k "
+     "(T1,T2 independent of c), all-identity, D=O guesses, pairing-degenerate pairs (P1,P1), (G,G), (X,-X), single identity; "
+     "each through from_bytes and through serde_json, plain and blind interface (every signer/committed split). workload C: "
+     "identity injected into every subset of the three proof points of an honest proof. Oracle: never Ok.",
+     BBS_BASE + ["soundness is monitored against the listed edits and forgery families, not against every adversary",
+                 "reference implementation reproduces all fixtures first (else inconclusive)"],
+     (15000, 150000), (900, 7200),
+     exhaustive_subspaces=["all disclosure sets for L<=4 (quick) / L<=5 (thorough)", "every single-bit flip of every octet of selected proofs",
+                           "all 7 identity masks over (Abar,Bbar,D)"],
+     min_counters={"proofs_with_all_bit_flips": 2})
+
+prop("C05", "bbs",
+     "one case = (suite, L, M, commitment mode, header class, signer disclosure set, committed disclosure set, ph class). "
+     "Each honest run: commit (M+2 draws observed) -> to_bytes -> blind_sign -> verify_blind_sign (also after from_bytes) -> "
+     "blind_proof_gen (5+U draws observed) -> length check -> blind_proof_verify directly and after from_bytes, with the "
+     "signer-message count. Modes: commit(Some), commit(None) (M=0 with blind factor), no commitment at all.",
+     BBS_BASE, (1500, 15000), (900, 7200),
+     exhaustive_subspaces=["all (L,M) in {0..3}^2 (quick) / {0..4}^2 (thorough) with all 2^L * 2^M disclosure pairs, both suites"])
+
+prop("C06", "bbs",
+     "one case = (suite, L, M, edit kind, position). Honest blind run, then: (1) blind_sign on every single-bit flip of the "
+     "commitment octets (all bits for selected runs), point-of-A+proof-of-B mixes, other-suite commitment, scalar-granular "
+     "truncation/extension; (2) verify_blind_sign with every single edit of signer / committed messages (alter, remove, "
+     "duplicate, insert, swap, append, move across lists), blind factor (other, zero, absent, bit flip), header, pk, "
+     "signature bit flips, other suite; (3) blind_proof_verify with edits of disclosed data, every index moved everywhere, "
+     "re-labelling committed<->signer (incl. wrapped indexes), the blind slot as disclosed index, L' in {0, None, L-1, L+1, "
+     "n-1, n, n+1, 2^32, usize::MAX-1, usize::MAX}, ph, header, pk, proof bit flips. Oracle: never Ok (a panic counts as "
+     "not accepted here and is C08's business).",
+     BBS_BASE, (8000, 60000), (900, 7200),
+     exhaustive_subspaces=["every single-bit flip of the commitment-with-proof octets for selected honest runs"],
+     min_counters={"commitments_with_all_bit_flips": 2})
+
+prop("C07", "bbs",
+     "one case = one generation event (operation, suite, input class, thread, repetition): proof / blind proof / commitment "
+     "generated repeatedly from IDENTICAL inputs in one thread, on 16 barrier-released threads, with mixed inputs, plus "
+     "KeyPair::random, BlindFactor::random, generate_random_secret; the same fixed workload again in 4 (quick) / 12 "
+     "(thorough) independent processes. Oracles over the whole history: every production-RNG draw (hook) non-zero; every "
+     "derived scalar (r1, r2, e~, r1~, r3~, m~_j, blind, s~, cm~_j, sk, ikm halves) and every point (Abar, Bbar, D, C) "
+     "pairwise distinct across threads and processes; draw count per operation exact (5+U / M+2 / 1); boundary "
+     "recomputation e~ = e^ - e*c, m~ = m^ - m*c, s~ = s^ - blind*c must equal the logged draws of that call; two-transcript "
+     "extraction on every pair of transcripts of the same signature must not return e / a hidden message / the blind; no "
+     "32/48-byte window (octets and JSON) equals a hidden scalar, e, the blind factor or A; bias screen on raw draws (7 sigma).",
+     BBS_BASE + ["a predictable but non-repeating, well-distributed generator is indistinguishable for this monitor"],
+     (2000, 10000), (600, 3600))
+
+
+def post_C07(drv, res, binary, tier, seed):
+    """Cross-process part of the history: the same fixed workload in N independent processes started
+    together; every randomness-derived value must be distinct across (and within) processes."""
+    import subprocess, json as _json
+    nproc = 4 if tier == "quick" else 12
+    procs = [subprocess.Popen([binary, "C07", "--emit"], stdout=subprocess.PIPE, stderr=subprocess.PIPE, text=True,
+                              env=drv.env_for("bbs")) for _ in range(nproc)]
+    seen = {}
+    total = 0
+    for pi, p in enumerate(procs):
+        try:
+            out, err = p.communicate(timeout=120)
+            vals = _json.loads(out)
+        except Exception as e:  # harness trouble is never a violation
+            res.setdefault("inconclusive", []).append(f"C07 sub-process {pi} failed: {e}")
+            continue
+        if len(vals) < 20:
+            res.setdefault("inconclusive", []).append(f"C07 sub-process {pi} emitted only {len(vals)} values")
+        for v in vals:
+            total += 1
+            key = v["v"]
+            if set(key) <= {"0"}:
+                res["violations"].append({"signature": "C07:cross-process/zero-value", "scenario": 0,
+                                          "detail": {"process": pi, "kind": v["kind"]}})
+            if key in seen:
+                kind = v["kind"].rstrip("0123456789").split("@")[0].split(".")[-1]
+                res["violations"].append({"signature": "C07:cross-process-repeat/" + kind, "scenario": 0,
+                                          "detail": {"value": key, "first": seen[key], "again": [pi, v["kind"]]}})
+            else:
+                seen[key] = [pi, v["kind"]]
+    res.setdefault("extra", {})["cross_process"] = {"processes": nproc, "values_compared": total, "distinct": len(seen)}
+
+
 NOT_CLAIMED = {}
